@@ -62,6 +62,10 @@ def replay(ctx, fails, rec, val, rnd, fns):
         d = {"call": name, "level": lv, "key": key, "args": snap, "valuation": cl.val_name(val)}
         d.update(kw)
         return d
+    same_object = op in ("inter", "diff") and len(args) == 2 and rec["args"][0] == rec["args"][1] \
+        and rnd.random() < 0.5
+    if same_object:
+        args[1] = args[0]           # one object passed twice
     try:
         res = call(fns, op, args, lv, key, rnd.random() < 0.5)
     except Exception as exc:     # noqa
@@ -77,6 +81,20 @@ def replay(ctx, fails, rec, val, rnd, fns):
             fails.add("%s:argument-changed" % name, sz, detail(after=args))
         if op == "inter" and cl.shared_mutables(res, args):
             fails.add("intersection:not-a-deep-copy", sz, detail(shared_with=cl.shared_mutables(res, args)))
+        # the functions are pure: called again with the same argument objects they return an equal result,
+        # leave the arguments alone and do not reach into the result returned before
+        if not mm:
+            first = copy.deepcopy(res)
+            try:
+                res2 = call(fns, op, args, lv, key, rnd.random() < 0.5)
+                if cl.mismatches(exp, res2):
+                    fails.add("%s:repeated-call:result-differs" % name, sz, detail(first=first, second=res2))
+                if res != first:
+                    fails.add("%s:repeated-call:earlier-result-changed" % name, sz, detail(first=first, now=res))
+                if args != snap:
+                    fails.add("%s:repeated-call:argument-changed" % name, sz, detail(after=args))
+            except Exception as exc:     # noqa
+                fails.add("%s:repeated-call:raised:%s" % (name, exc_name(exc)), sz, detail(exception=repr(exc)))
         if op == "diff" and not mm:
             # recursively updating the intersection with the difference reconstructs d1
             exp_inter = cl.decode(rec["inter"], val)
@@ -95,6 +113,15 @@ def replay(ctx, fails, rec, val, rnd, fns):
         if mm:
             fails.add("%s:d-after:%s" % (name, mm[0][1]), sz,
                       detail(expected=exp, observed=args[0], at=list(mm[0][0])))
+        elif op == "updrec":
+            # the same update applied again changes nothing (law UpdRec(UpdRec(d, o), o) = UpdRec(d, o))
+            try:
+                fns.update_recursively(args[0], args[1])
+                if cl.mismatches(exp, args[0]):
+                    fails.add("update_recursively:repeated-call:d-changes", sz, detail(expected=exp, observed=args[0]))
+            except Exception as exc:     # noqa
+                fails.add("update_recursively:repeated-call:raised:%s" % exc_name(exc), sz,
+                          detail(exception=repr(exc)))
 
 
 # ---------------------------------------------------------------- C2S: seeded random calls
